@@ -9,7 +9,7 @@ OPS = '{"Create","CreateFail","Delete","Configure","Reset","SetState"}'
 
 def consts(maxids):
     return dict(Types='{"a","b","c"}', Vals='{2}', Spawn='[t \\in {"a","b","c"} |-> IF t = "c" THEN <<"a">> ELSE <<>>]',
-                Configs='{<< <<"a",1,2>>, <<"c",1,2>> >>, << <<"b",2,2>> >>}',
+                Configs='{<< <<"a",1,2>>, <<"c",1,2>> >>, << <<"b",2,2>> >>, << <<"b",1,2>>, <<"a",1,2>>, <<"b",1,2>> >>}',     # (the last one lists a type in two entries)
                 MaxIds=str(maxids), MaxEvents='0', MaxSteps='0', Delays='{0}', Dt100='100', RunSpecs='{}', MaxPlans='0', PlanAhead='1', Ops=OPS)
 
 
